@@ -203,7 +203,7 @@ func c02R2(c *Ctx) {
 		if li == nil {
 			c.undecided(rule, key, c.pos(fn.Pos()), "loop over Expression.Dependencies() not found")
 		} else {
-			p := c.iterationSkips(li, isConnectCall)
+			p := c.iterationSkips(li, c.liftedBarrier(isConnectCall))
 			c.verdict(p == nil, rule, key, c.blockPos(li.Header), "every dependency path is connected (or the function returns an error)", "a dependency reported by the expression can be skipped without a DAG connection: the consumer may run before that producer", p...)
 			er := c.earlySuccessReturn(li)
 			c.verdict(er == nil, rule, key+"#no-early-success", c.blockPos(li.Header), "the loop over the dependencies is only left early with an error", "the loop over the expression's dependencies can be left with a nil error before all dependencies were connected (e.g. on an already existing connection): the remaining references get no DAG edge and the consumer can run before those producers", fmt.Sprint(func() string {
@@ -215,7 +215,7 @@ func c02R2(c *Ctx) {
 		}
 		// tolerated error: only ErrConnectionAlreadyExists — every `err != nil` after a Connect returns unless errors.As matched
 		n := 0
-		eachInstr(fn, func(r instrRef) {
+		c.eachInstrLogical(fn, func(r instrRef) {
 			if !isConnectCall(r.I) {
 				return
 			}
@@ -238,8 +238,14 @@ func c02R2(c *Ctx) {
 				return
 			}
 			errBlock := ifi.Block().Succs[0]
-			isAs := func(in ssa.Instruction) bool { return isCallTo(in, "errors.As") }
+			isAs := func(in ssa.Instruction) bool { return c.callsTransitively(in, "errors.As", 2) }
 			p := c.findPathFrom(errBlock, 0, isAs, func(in ssa.Instruction) bool {
+				if call.Parent() != fn {
+					return isReturn(in) && func() bool { // in a helper: leaving it without an error
+						res := retResults(in.(*ssa.Return))
+						return len(res) > 0 && isNilConst(res[len(res)-1])
+					}()
+				}
 				return li != nil && in == li.Header.Instrs[0]
 			})
 			c.verdict(p == nil, rule, k2, c.instrPos(call), "a failed connection is only tolerated after errors.As(ErrConnectionAlreadyExists)", "a failed DAG connection is silently skipped", p...)
@@ -321,7 +327,7 @@ func c02R3(c *Ctx) {
 					return
 				}
 				if isPrep(r.I) {
-					walked = callArgs(callCommon(r.I))[1]
+					walked = argOfType(callArgs(callCommon(r.I)), isAnyType)
 				}
 				if m, ok := r.I.(*ssa.MapUpdate); ok {
 					mu = m
@@ -369,11 +375,15 @@ func c02R3(c *Ctx) {
 					return
 				}
 				args := callArgs(callCommon(r.I))
-				nodeFromAdd := derivesFrom(args[2], func(x ssa.Value) bool {
+				nodeArg, dataArg := argOfType(args, isDAGNodeType), argOfType(args, isAnyType)
+				if nodeArg == nil || dataArg == nil {
+					return
+				}
+				nodeFromAdd := derivesFrom(nodeArg, func(x ssa.Value) bool {
 					call, ok := x.(*ssa.Call)
 					return ok && call.Common().IsInvoke() && call.Common().Method.Name() == "AddNode"
 				})
-				dataIsRangeVal := derivesFrom(args[1], func(x ssa.Value) bool { return x == ssa.Value(li.Next) })
+				dataIsRangeVal := derivesFrom(dataArg, func(x ssa.Value) bool { return x == ssa.Value(li.Next) })
 				if nodeFromAdd && dataIsRangeVal {
 					okNode = true
 				}
